@@ -28,7 +28,12 @@ DEFAULT_PARAMS = {
 def translate():
     from translator import registry
 
-    return registry.generate("ImgTools")
+    out = registry.generate("ImgTools")
+    # get_window regenerated from the source (translator/pyexpr.py): Generated/KernelsGlue.lean, Properties/C16Kernels.lean
+    from translator import gen_kernels_glue
+
+    out.update(gen_kernels_glue.generate("getWindow"))
+    return out
 
 
 def source_params(report, status):
@@ -498,6 +503,10 @@ def check_case(ctx, report, case, params, label=""):
 def run(ctx, report, status):
     params = source_params(report, status)
     translator_cross_check(report, status, params)
+    from .. import glue_check
+
+    glue_check.selftest(status)
+    glue_check.check_get_window(ctx, report, status)
     report.rule = (
         "window stream: every well-formed ROI with corners in [-3, size+3] and margins 0..2 on one axis (other axis: "
         "inside / at both edges / outside) of a 5x6 (quick) image through the real get_window; dataset stream: random "
